@@ -307,3 +307,45 @@ Proof.
   - intros k Hin. apply M. apply (Y2 k Hin).
   - intros k Hin. destruct (Y4 k (proj2 (M k) Hin)) as [?|[?|[W|W]]]; auto; discriminate.
 Qed.
+
+(* ------------------------------------------------------------------ *)
+(* C02 over whole runs: between two moments, the value under a key is what it was unless a guard
+   operation on a guard for that key (or consuming the container) happened in between. *)
+
+Definition touches (k : key) (e : ev) : Prop :=
+  let '(s, l, o, s') := e in
+  match l with
+  | LGuardOp g _ => aget g (s_guards s) = Some k
+  | LConsume _ => True
+  | _ => False
+  end.
+
+Theorem value_only_changed_by_own_guard_ops c k : forall tr s s',
+  otrace c s tr s' -> (forall e, In e tr -> ~ touches k e) -> vof s' k = vof s k.
+Proof.
+  intros tr s s' H. induction H as [s|s l o s1 tr s'' Hstep Htr IH]; intros Hno; auto.
+  rewrite IH by (intros e He; apply Hno; right; auto).
+  assert (Hl : ~ touches k (s, l, o, s1)) by (apply Hno; left; auto).
+  destruct (changes_values l) eqn:Ec.
+  - destruct l; try discriminate.
+    + (* a guard operation on another key *)
+      cbn in Hl. pose proof Hstep as H0. cbn in H0. unfold do_guard_op in H0.
+      destruct (negb (guard_live s g)); [discriminate|].
+      destruct (aget g (s_guards s)) as [k0|] eqn:Hg; [|discriminate].
+      apply (guard_op_local c s g op s1 o k0 Hstep Hg). intros ->. auto.
+    + exfalso. apply Hl. cbn. auto.
+  - apply (step_values_unchanged c s l s1 o Hstep Ec).
+Qed.
+
+Lemma otrace_inv c tr : forall s s', Inv s -> otrace c s tr s' -> Inv s'.
+Proof. intros s s' HI H. induction H; auto. apply IHotrace. eapply step_inv; eauto. Qed.
+
+(* ... so a guard obtained later shows exactly what was there: what the previous guard for the key left *)
+Theorem next_guard_sees_what_was_left c k tr s s' l s'' g v :
+  Inv s -> otrace c s tr s' -> (forall e, In e tr -> ~ touches k e) ->
+  step c s' l = ROk s'' (OGuard g k v) -> v = vof s k.
+Proof.
+  intros HI Htr Hno Hstep.
+  rewrite (guard_obs_value c s' l s'' g k v (otrace_inv c tr s s' HI Htr) Hstep).
+  apply (value_only_changed_by_own_guard_ops c k tr s s' Htr Hno).
+Qed.
